@@ -19,7 +19,7 @@ gvars == <<vars, tid>>
 GInit == /\ tid \in 1..Len(Given)
          /\ U = [w \in Wraps |-> Given[tid].U[w - NF]]
          /\ E = [f \in Frames |-> Given[tid].E[f]]
-         /\ C = [f \in Frames |-> Given[tid].C[f]]
+         /\ C = [f \in Frames |-> IF Given[tid].C[f] THEN 1 ELSE 0]
          /\ root = Given[tid].root
          /\ toU = << [x |-> root, d |-> 0, o |-> BetterOrigin(root, NoneItem), w |-> FALSE] >>
          /\ toE = <<>> /\ loops = 0 /\ errors = <<>> /\ out = <<>> /\ leaf = NoneV
